@@ -4948,6 +4948,23 @@ impl GlobalInferenceCtx<'_> {
                                         while used_discriminants.contains(&discrim) {
                                             discrim += 1;
                                         }
+
+                                        // discriminants are stored in a u8. one that was counted
+                                        // up past 255 (`enum { A | 255, B }`) would wrap around
+                                        if discrim > u8::MAX as u64 {
+                                            self.diagnostics.push(TyDiagnostic {
+                                                kind: TyDiagnosticKind::IntTooBigForType {
+                                                    found: discrim,
+                                                    max: u8::MAX as u64,
+                                                    ty: Ty::UInt(8).into(),
+                                                },
+                                                file: self.loc.file(),
+                                                expr: Some(expr),
+                                                range: name.range,
+                                                help: None,
+                                            });
+                                        }
+
                                         discrim
                                     }
                                 };
